@@ -164,7 +164,7 @@ Definition poly_contains (vs : list pt) : pt -> bool :=
   let keep := bbox_keep vs in
   fun p => keep p && crossing_odd vs p.
 
-(* ---------- polygon centre (PolygonalROI.mean / area / centroid / center, repaired closed test) ---------- *)
+(* ---------- polygon centre (PolygonalROI.mean / area / centroid / center, repaired closed test and zero-area test) ---------- *)
 Definition pt_eqb (a b : pt) : bool := Qeqb (fst a) (fst b) && Qeqb (snd a) (snd b).
 Definition poly_closed (vs : list pt) : bool :=
   match vs with
@@ -200,8 +200,13 @@ Definition poly_centroid (vs : list pt) : pt :=
   let scl := 1 / (6 * poly_area_signed vs) in
   (qsum (map (fun e => (fst (fst e) + fst (snd e)) * cross2 (fst e) (snd e)) prs) * scl + fst m,
    qsum (map (fun e => (snd (fst e) + snd (snd e)) * cross2 (fst e) (snd e)) prs) * scl + snd m).
+(* repaired zero-area test: area() <= 1e-12 * extent^2 with extent = max(ptp(vx), ptp(vy)) *)
+Definition poly_extent (vs : list pt) : Q :=
+  qmax (qmax_list 0 (map fst vs) - qmin_list 0 (map fst vs)) (qmax_list 0 (map snd vs) - qmin_list 0 (map snd vs)).
+Definition area_tol : Q := 1 # 1000000000000.
 Definition poly_center (vs : list pt) : pt :=
-  let r := if Qeqb (qabs (poly_area_signed vs)) 0 then poly_mean vs else poly_centroid vs in
+  let r := if Qleb (qabs (poly_area_signed vs)) (area_tol * (poly_extent vs * poly_extent vs))
+           then poly_mean vs else poly_centroid vs in
   (Qred (fst r), Qred (snd r)).
 
 (* ---------- contains / center / move_to / rotate_to / to_polygon ---------- *)
